@@ -1,6 +1,6 @@
 (** Pinned statements of the C03 property theorems: compiled on every check, so a theorem cannot be
     weakened silently. *)
-From V Require Import Base.Util Gql.Ast C03.Model C03.Spec C03.Witness C03.Proofs C03.Proofs2 C03.Proofs3 C03.Proofs4 C03.Proofs5 C03.Properties.
+From V Require Import Base.Util Gql.Ast C03.Model C03.Spec C03.Witness C03.Proofs C03.Proofs2 C03.Proofs3 C03.Proofs4 C03.Proofs5 C03.Proofs6 C03.Properties.
 
 Check (C03_sound_unique_op_names : forall S D,
   check_operation_document S D = [] -> rule_ok S D R_unique_op_names = true).
@@ -19,6 +19,12 @@ Check (C03_sound_fragment_definition_targets : forall S D,
 Check (C03_sound : forall S D,
   schema_wf S = true -> check_operation_document S D = [] ->
   forall r, r <> R_single_subscription_root -> rule_ok_vis S D r = true).
+Check (C03_sound_single_subscription_root : forall S D,
+  selsets_nonempty D = true -> check_operation_document S D = [] ->
+  rule_ok S D R_single_subscription_root = true).
+Check (C03_sound_all : forall S D,
+  schema_wf S = true -> selsets_nonempty D = true -> check_operation_document S D = [] ->
+  forall r, rule_ok_vis S D r = true).
 Check (C03_sound_sites : forall S D,
   schema_wf S = true -> check_operation_document S D = [] ->
   forall o fv, In o (doc_ops D) ->
@@ -67,6 +73,8 @@ Print Assumptions C03_sound_unique_vars.
 Print Assumptions C03_sound_vars_input_types.
 Print Assumptions C03_sound_fragment_definition_targets.
 Print Assumptions C03_sound.
+Print Assumptions C03_sound_single_subscription_root.
+Print Assumptions C03_sound_all.
 Print Assumptions C03_sound_sites.
 Print Assumptions C03_sound_fields_exist.
 Print Assumptions C03_sound_leaf_vs_composite.
